@@ -78,13 +78,18 @@ next_power_of_two(uint32_t size)
 ZixRing*
 zix_ring_new(ZixAllocator* const allocator, const uint32_t size)
 {
+  const uint32_t real_size = next_power_of_two(size);
+  if (!real_size) {
+    return NULL; // Size is zero, or too large to be rounded up
+  }
+
   ZixRing* ring = (ZixRing*)zix_malloc(allocator, sizeof(ZixRing));
 
   if (ring) {
     ring->allocator  = allocator;
     ring->write_head = 0;
     ring->read_head  = 0;
-    ring->size       = next_power_of_two(size);
+    ring->size       = real_size;
     ring->size_mask  = ring->size - 1U;
 
     if (!(ring->buf = (char*)zix_malloc(allocator, ring->size))) {
